@@ -68,7 +68,8 @@ brk('C16', P, "            if self._length_info['bpoints'] == self.bpoints() \\\
 brk('C16', P, "            self._length_info['bpoints'] = self.bpoints()\n            self._length_info['error'] = error", "            self._length_info['error'] = error", 'CubicBezier cache fill forgets the key')
 brk('C16', P, "        return hash((self.start, self.control, self.end))", "        return hash((self.start, self.control, self.end, id(self)))", 'hash depends on identity')
 brk('C16', P, "        return self.start == other.start and self.end == other.end \\\n            and self.control == other.control", "        return self.start == other.start and self.end == other.end", 'QuadraticBezier.__eq__ ignores control')
-brk('C16', P, "            new_quad._length_info['bpoints'] = (\n                self.end, self.control, self.start)", "            new_quad._length_info['bpoints'] = (\n                self.start, self.control, self.end)", 'shared cache keyed to the original orientation')
+ben('C16', P, "            new_quad._length_info['bpoints'] = (\n                self.end, self.control, self.start)", "            new_quad._length_info['bpoints'] = (\n                self.start, self.control, self.end)", 'copied cache keyed to the original orientation: since fix F25 the copy owns its dict, a wrong key only makes it miss (recompute), never answer wrongly')
+brk('C16', P, "        if self._length_info['length'] and \\\n                self._length_info['bpoints'] == self.bpoints():\n            new_cub._length_info = dict(self._length_info)", "        if self._length_info['length']:\n            new_cub._length_info = dict(self._length_info)", 'reversed() hands over a cache without checking that it is valid (F25 re-introduced)')
 brk('C16', P, "    def __len__(self):\n        return len(self._segments)", "    def __len__(self):\n        return len(self._segments)\n\n    def append(self, value):\n        self._segments.append(value)", 'append override without invalidation')
 brk('C16', 'smoothing.py', "    return Path(*new_path)", "    res = Path(*new_path)\n    res._length = 0\n    return res", 'foreign writer of Path._length')
 ben('C16', P, "        self._segments.insert(index, value)\n        self._length = None", "        self._length = None\n        self._segments.insert(index, value)", 'invalidate before mutating')
